@@ -41,6 +41,9 @@ def hierarchy_strategy():
     @st.composite
     def hier(draw):
         n = draw(st.integers(1, 6))
+        # classes are created module by module; which file each level is decides who imports whom (a top-level module may import two
+        # submodules of the package, a package module may import a top-level one, ...)
+        perm = draw(st.permutations([0, 1, 2, 3]))
         classes = []
         anc = {}       # class index -> set of ancestor indexes (incl. self)
         depth = {}
@@ -85,13 +88,15 @@ def hierarchy_strategy():
                 for nm in draw(st.lists(st.sampled_from(DUNDERS), min_size=1, max_size=2, unique=True)):
                     members.append({'name': nm, 'kind': 'method', 'assigns': draw(st.lists(st.sampled_from(ATTRS + ['x', 'y']), max_size=2, unique=True)),
                                     'foreign': False})
+            # a privately named class (abstract base, mixin) referred to from other modules like any other
+            private = draw(st.integers(0, 4)) == 0
             anc[i] = {i} | used
             depth[i] = 1 + max([depth[j] for j in bases] or [0])
-            classes.append({'name': 'C%d' % i, 'mod': mod, 'bases': bases, 'bbase': bbase, 'members': members,
+            classes.append({'name': ('_C%d' if private else 'C%d') % i, 'mod': perm[mod], 'bases': bases, 'bbase': bbase, 'members': members,
                             'bbase_first': bool(bbase) and bbase != 'object' and draw(st.booleans()),
                             'real_builtin': bbase not in (None, 'object') or any(classes[j]['real_builtin'] for j in bases),
                             'bbase_chain': bool(bbase) or any(classes[j]['bbase_chain'] for j in bases)})
-        forms = draw(st.lists(st.integers(0, 3), min_size=n * 4, max_size=n * 4))
+        forms = draw(st.lists(st.sampled_from([0, 1, 1, 1, 2, 3]), min_size=n * 4, max_size=n * 4))     # 1 = plain dotted `import p.m2`
         probe_forms = draw(st.lists(st.integers(0, 3), min_size=n, max_size=n))
         return {'classes': classes, 'forms': forms, 'probe_forms': probe_forms}
     return hier()
@@ -401,6 +406,25 @@ def check_hierarchy(h, sh=None):
         pre, props = assistant.assist(project, src, (2, 6), os.path.join(root, 'probe.py'))
         if not {'join', 'upper', 'startswith'} <= set(props):
             problems.append(('literal-attribute-missing', 'str literal proposes %s...' % props[:5]))
+        # scalar literals, also ones that compare equal across types (1 == 1.0 == True, 0 == 0.0 == False), in an order that
+        # depends on the generated hierarchy: the proposals are exactly the attributes of the object CPython creates
+        lits = ['1', '1.0', 'True', '0', '0.0', 'False', "''", "b''", '1j', 'None', '2', '2.0', '0j']
+        k = (sum(h['forms']) + len(classes)) % len(lits)
+        step = [1, 3, 5, 7, 11][sum(h['probe_forms']) % 5]
+        for i in range(len(lits)):
+            lit = lits[(k + i * step) % len(lits)]
+            src = 'x = %s\nx.' % lit
+            info['probes'] += 1
+            try:
+                pre, props = assistant.assist(project, src, (2, 2), os.path.join(root, 'probe.py'))
+            except Exception as e:
+                problems.append(('assist-raises:%s' % type(e).__name__, 'literal %s: %r' % (lit, e)))
+                continue
+            want = sorted(dir(eval(lit)))
+            if props != want:
+                problems.append(('literal-attributes-differ', 'x = %s; x.| proposes %d names, the object has %d; only proposed %s, missing %s' % (
+                    lit, len(props), len(want), sorted(set(props) - set(want))[:4], sorted(set(want) - set(props))[:4])))
+                break
     finally:
         shutil.rmtree(root, ignore_errors=True)
     return problems, info
